@@ -110,6 +110,14 @@ def cascade (s : St) : List Nat → St × Bool
   | [] => (s, false)
   | a0 :: rest => cascadeLoop a0 s rest
 
+/-- `swapCascade(assemList)` with `None` levels (a `findAssembly` miss): a `None` level is skipped
+("Skipping level ... because it is None"); a `None` first entry makes every `swapAssemblies(None, x)` a no-op. So the
+cascade is the cascade of its non-`None` entries. -/
+def cascadeOpt (s : St) : List (Option Nat) → St × Bool
+  | [] => (s, false)
+  | none :: _ => (s, false)
+  | some a0 :: rest => cascadeLoop a0 s (rest.filterMap id)
+
 /-- `Core.removeAssembly(a, discharge)`; `none` = KeyError (not in childrenByLocator) -/
 def removeAssembly (s : St) (id : Nat) (discharge : Bool) : Option St :=
   match s.core.find? (fun p => p.1.id = id) with
